@@ -29,6 +29,16 @@
 
 extern "C" void __sanitizer_set_death_callback(void (*)(void));
 
+// libFuzzer registers its own death callback (the one which writes the crash-<sha1> artifact and the final
+// stats) in the same, single, user slot of the sanitizer runtime.  Ours must hand over to it, otherwise no
+// artifact is ever written for a sanitizer report.  Weak: absent when this file is used without libFuzzer.
+namespace fuzzer {
+  class Fuzzer {
+   public:
+    __attribute__((weak)) static void StaticDeathCallback();
+  };
+}  // namespace fuzzer
+
 namespace fuzzstats {
 
   struct State {
@@ -102,7 +112,10 @@ namespace fuzzstats {
     if (s.registered) return;
     s.registered = true;
     std::atexit(dump);
-    __sanitizer_set_death_callback(dump);
+    __sanitizer_set_death_callback(+[] {
+      dump();
+      if (&fuzzer::Fuzzer::StaticDeathCallback != nullptr) fuzzer::Fuzzer::StaticDeathCallback();
+    });
   }
   struct Scope {
     const std::uint8_t* d;
